@@ -182,6 +182,40 @@ fn corpus() -> Vec<&'static str> {
     ]
 }
 
+/// every single `plusz` / `timesz` whose operands are a variable, 0, a positive or a negative number (the sign
+/// and zero cases of the quotient arms: `timesz(q, 0, 5)`, `timesz(0, q, 5)`, …): run on EVERY quick run, here and in C23
+pub fn edge_singles() -> Vec<Prog> {
+    let mut v = vec![];
+    for kind in 0..2 {
+        for a in 0..4 {
+            for b in 0..4 {
+                for c in 0..4 {
+                    let t = |x: usize, i: usize| match x {
+                        0 => T::Var(i),
+                        1 => T::Num(0),
+                        2 => T::Num(5),
+                        _ => T::Num(-3),
+                    };
+                    let g = if kind == 0 { PG::PlusZ(t(a, 0), t(b, 1), t(c, 2)) } else { PG::TimesZ(t(a, 0), t(b, 1), t(c, 2)) };
+                    v.push(Prog { nvars: 3, nq: 3, take: 0, body: vec![g], raw: false });
+                    // the same with the operands bound AFTER the constraint is posted
+                    if a != 0 || b != 0 || c != 0 {
+                        let g2 = if kind == 0 { PG::PlusZ(T::Var(0), T::Var(1), T::Var(2)) } else { PG::TimesZ(T::Var(0), T::Var(1), T::Var(2)) };
+                        let mut body = vec![g2];
+                        for (i, x) in [a, b, c].iter().enumerate() {
+                            if *x != 0 {
+                                body.push(PG::Eq(T::Var(i), t(*x, i)));
+                            }
+                        }
+                        v.push(Prog { nvars: 3, nq: 3, take: 0, body, raw: false });
+                    }
+                }
+            }
+        }
+    }
+    v
+}
+
 fn all_orders(p: &Prog, r: &mut Rng, out: &mut Out) {
     let sols = solutions(p); // the same for every posting order
     for perm in perms(p.body.len(), 6, r) {
@@ -197,6 +231,11 @@ pub fn run(seed: u64, thorough: bool, out: &mut Out) {
         let p = Prog::parse(l);
         let mut r = Rng::new(seed, 19, 999_999);
         all_orders(&p, &mut r, out);
+    }
+    for p1 in edge_singles() {
+        out.stat("edge_single");
+        let sols = solutions(&p1);
+        record(&p1, &sols, out);
     }
     let n = if thorough { 12000 } else { 500 };
     for i in 0..n {
